@@ -1288,6 +1288,9 @@ pub fn run_prop(ctx: &mut Ctx, prop: &str) {
 fn run_prop_inner(ctx: &mut Ctx, prop: &str) {
     match prop {
         "C01" => {
+            for i in 0..ctx.n(6, 30) {
+                skipped_variable_case(ctx, "C01", i);
+            }
             let n = ctx.n(16, 200);
             for i in 0..n {
                 let mut rng = rng_for(ctx.seed, "C01/pst13-batch", i as u64);
@@ -1364,6 +1367,9 @@ fn run_prop_inner(ctx: &mut Ctx, prop: &str) {
             let n = ctx.n(10, 60);
             for i in 0..n {
                 relation_case(ctx, i);
+            }
+            for i in 0..ctx.n(6, 30) {
+                skipped_variable_case(ctx, "C10", i);
             }
             ctx.flush_model("C10-pst13");
         }
@@ -2636,6 +2642,62 @@ fn reference_relation(g: Fr, gamma: Fr, h: Fr, bh: &[Fr], cs: &[Fr], z: &[Fr], v
         rhs += w[i] * (bh[i] - z[i] * h);
     }
     Some(inner * h == rhs)
+}
+
+/// Non-hiding polynomials that do not mention an EARLIER variable but use a later one: the honest proof then
+/// carries the identity as witness of the skipped variable, in front of non-identity witnesses. `check` and
+/// `batch_check` must accept it, `check` must keep pairing witness j with variable j (a false value is rejected).
+fn skipped_variable_case(ctx: &mut Ctx, prop: &str, i: usize) {
+    let id = format!("{}/pst13-skipvar/{}", prop, i);
+    if !ctx.selected(&id) {
+        return;
+    }
+    let mut rng = rng_for(ctx.seed, "pst13-skipvar", i as u64);
+    let nv = 2 + i % 2;
+    let d = 2 + (i / 2) % 2;
+    let trap = Trap::random(&mut rng, nv, d);
+    let pp = trap.params();
+    let head = format!("{}# case={} seed={}\n# rerun: .build/cargo/debug/pcv-harness {} --seed {} --only {}\n", trap.desc(), id, ctx.seed, prop, ctx.seed, id);
+    let (ck, vk): (CK, VK) = match guarded(|| PC::trim(&pp, d, 0, None)) {
+        Ok(Ok(x)) => x,
+        _ => return,
+    };
+    // skip variable `skip` (0 or 1), use a later one
+    let skip = if nv == 3 { i % 2 } else { 0 };
+    let mut terms = vec![(Fr::rand(&mut rng), SparseTerm::new(vec![]))];
+    for v in (skip + 1)..nv {
+        terms.push((rand_nonzero(&mut rng), SparseTerm::new(vec![(v, 1 + (i + v) % d)])));
+    }
+    if nv == 3 && skip == 0 && d >= 2 {
+        terms.push((rand_nonzero(&mut rng), SparseTerm::new(vec![(1, 1), (2, 1)])));
+    }
+    let p = MvPoly::from_coefficients_vec(nv, terms);
+    let lp = LabeledPolynomial::new("p".to_string(), p.clone(), None, None);
+    let (comms, states): (Vec<LabeledCommitment<Comm>>, Vec<Rand>) = match guarded(|| PC::commit(&ck, [&lp], None)) {
+        Ok(Ok(x)) => x,
+        _ => { ctx.rep.expect_fail(&id, "pst13/commit-refused", "commit refused an in-domain polynomial", head); return; }
+    };
+    let z: Vec<Fr> = (0..nv).map(|_| Fr::rand(&mut rng)).collect();
+    let v = p.evaluate(&z);
+    let mut sponge = fresh();
+    let proof: Proof<Bls12_381> = match guarded(|| PC::open(&ck, [&lp], comms.iter(), &z, &mut sponge, states.iter(), None)) {
+        Ok(Ok(x)) => x,
+        _ => { ctx.rep.expect_fail(&id, "pst13/open-refused", "open refused a committed polynomial", head); return; }
+    };
+    let identity_first = proof.w.iter().position(|w| w.is_zero()).map(|k| proof.w[k + 1..].iter().any(|w| !w.is_zero())).unwrap_or(false);
+    let good = matches!(guarded(|| PC::check(&vk, comms.iter(), &z, [v], &proof, &mut fresh(), None)), Ok(Ok(true)));
+    let bad = matches!(guarded(|| PC::check(&vk, comms.iter(), &z, [v + rand_nonzero(&mut rng)], &proof, &mut fresh(), None)), Ok(Ok(true)));
+    let mut qs = ark_poly_commit::QuerySet::new();
+    qs.insert(("p".to_string(), ("z".to_string(), z.clone())));
+    let mut ev = ark_poly_commit::Evaluations::new();
+    ev.insert(("p".to_string(), z.clone()), v);
+    let batch = matches!(guarded(|| PC::batch_check(&vk, comms.iter(), &qs, &ev, &vec![proof.clone()], &mut fresh(), &mut rng.clone())), Ok(Ok(true)));
+    if !good || bad || !batch {
+        ctx.rep.expect_fail(&id, "pst13/skipped-variable-opening",
+            &format!("polynomial not mentioning x_{}: check(true value)={} check(false value)={} batch_check(true value)={} (identity witness before a non-identity one: {})", skip, good, bad, batch, identity_first),
+            format!("{}# polynomial: {}\n# point: {}\n", head, polys_val(&[p.clone()]), wire::fes(&z)));
+    }
+    ctx.rep.case(&format!("pst13 skipped variable nv={} d={} skip={} identity-first={}", nv, d, skip, identity_first), Some(format!("pst13-skipvar/{}/{}/{}", nv, d, skip)));
 }
 
 fn relation_case(ctx: &mut Ctx, i: usize) {
